@@ -1,11 +1,731 @@
-//! C12 -- not built yet (stub so the crate layout is stable).
-use crate::engine::report::{Ctx, Report};
-use serde_json::Value;
+//! C12 -- sixel output decodes to the quantised image, exact when colours fit the palette.
+//!
+//! Every image of several explicitly enumerated spaces is drawn twice on a fresh
+//! `SixelImageHandler`; the bytes of the first draw are decoded by the independent reference
+//! interpreter `model::sixel` and the decoded picture is compared with the source image (which
+//! the harness generated itself, so the library is never asked what the pixels are). The
+//! oracle is on the decoded picture only: the library assembles each band from a `HashMap`
+//! whose iteration order std randomises, so bytes of different handlers may legitimately differ.
+use crate::engine::catch;
+use crate::engine::report::{Ctx, Report, Samples, Tier, Violations};
+use crate::engine::util::{esc, hash64, hex, unhex};
+use crate::model::sixel::{decode, Decoded};
+use rayon::prelude::*;
+use serde_json::{json, Value};
+use std::collections::{BTreeMap, BTreeSet, HashSet};
+use std::sync::atomic::{AtomicU64, Ordering};
+use std::sync::Mutex;
+use surf_n_term::{Image, ImageHandler, Position, SixelImageHandler, Size, SurfaceOwned, RGBA};
 
-pub fn run(_ctx: &Ctx) -> Result<Report, String> {
-    Err("C12: check not built yet".into())
+type Px = [u8; 4];
+
+/// One image of the space: base pixels, optional crop (a strided view on the same allocation),
+/// optional background of the handler.
+#[derive(Clone, Debug)]
+struct Case {
+    sub: &'static str,
+    h: usize,
+    w: usize,
+    px: Vec<Px>,
+    crop: Option<(usize, usize, usize, usize)>,
+    bg: Option<[u8; 3]>,
 }
 
-pub fn replay(_w: &Value) -> Result<(bool, String), String> {
-    Err("C12: check not built yet".into())
+impl Case {
+    fn new(sub: &'static str, h: usize, w: usize, px: Vec<Px>) -> Self {
+        Case { sub, h, w, px, crop: None, bg: None }
+    }
+
+    /// what a viewer sees: (height, width, row-major pixels)
+    fn view(&self) -> (usize, usize, Vec<Px>) {
+        match self.crop {
+            None => (self.h, self.w, self.px.clone()),
+            Some((r0, r1, c0, c1)) => {
+                let mut v = Vec::with_capacity((r1 - r0) * (c1 - c0));
+                for r in r0..r1 {
+                    for c in c0..c1 {
+                        v.push(self.px[r * self.w + c]);
+                    }
+                }
+                (r1 - r0, c1 - c0, v)
+            }
+        }
+    }
+
+    fn image(&self) -> Image {
+        let w = self.w;
+        let px = &self.px;
+        let surf = SurfaceOwned::new_with(Size::new(self.h, self.w), |p| {
+            let [r, g, b, a] = px[p.row * w + p.col];
+            RGBA::new(r, g, b, a)
+        });
+        let img = Image::from(surf);
+        match self.crop {
+            None => img,
+            Some((r0, r1, c0, c1)) => img.crop(r0..r1, c0..c1),
+        }
+    }
+
+    fn json(&self) -> Value {
+        let bytes: Vec<u8> = self.px.iter().flat_map(|p| p.iter().copied()).collect();
+        json!({
+            "sub": self.sub, "h": self.h, "w": self.w, "rgba_hex": hex(&bytes),
+            "crop_rows_cols": self.crop.map(|(a, b, c, d)| json!([a, b, c, d])),
+            "bg": self.bg.map(|b| json!(b)),
+        })
+    }
+
+    fn from_json(v: &Value) -> Result<Case, String> {
+        let h = v["h"].as_u64().ok_or("h")? as usize;
+        let w = v["w"].as_u64().ok_or("w")? as usize;
+        let bytes = unhex(v["rgba_hex"].as_str().ok_or("rgba_hex")?);
+        if bytes.len() != h * w * 4 {
+            return Err("rgba_hex length".into());
+        }
+        let px = bytes.chunks(4).map(|c| [c[0], c[1], c[2], c[3]]).collect();
+        let crop = match v["crop_rows_cols"].as_array() {
+            Some(a) if a.len() == 4 => {
+                let g = |i: usize| a[i].as_u64().unwrap_or(0) as usize;
+                Some((g(0), g(1), g(2), g(3)))
+            }
+            _ => None,
+        };
+        let bg = match v["bg"].as_array() {
+            Some(a) if a.len() == 3 => Some([a[0].as_u64().unwrap_or(0) as u8, a[1].as_u64().unwrap_or(0) as u8, a[2].as_u64().unwrap_or(0) as u8]),
+            _ => None,
+        };
+        Ok(Case { sub: "replay", h, w, px, crop, bg })
+    }
+}
+
+/// 0..=255 -> 0..=100, round(c * 100 / 255) in exact arithmetic (there are no ties:
+/// 40 c = 51 (2k + 1) has no solution, the left side is even and the right side odd)
+fn q(c: u8) -> u8 {
+    ((c as u32 * 200 + 255) / 510) as u8
+}
+
+fn q3(p: [u8; 3]) -> [u8; 3] {
+    [q(p[0]), q(p[1]), q(p[2])]
+}
+
+#[derive(Debug, Clone, Copy, PartialEq, Eq, PartialOrd, Ord, Hash)]
+enum Expect {
+    /// opaque pixel, or fully transparent pixel (= background)
+    Exact([u8; 3]),
+    /// partially transparent: some convex combination of pixel and background
+    Blend { colour: [u8; 3], alpha: u8 },
+}
+
+fn expectation(p: Px, bg: [u8; 3]) -> Expect {
+    match p[3] {
+        255 => Expect::Exact(q3([p[0], p[1], p[2]])),
+        0 => Expect::Exact(q3(bg)),
+        a => Expect::Blend { colour: q3([p[0], p[1], p[2]]), alpha: a },
+    }
+}
+
+#[derive(Debug, Clone)]
+struct Finding {
+    key: String,
+    what: String,
+}
+
+#[derive(Default, Clone)]
+struct Outcome {
+    findings: Vec<Finding>,
+    /// hash of the decoded picture (0 when nothing decoded)
+    picture: u64,
+    colours_in_picture: usize,
+    exact_checked: bool,
+    bytes: usize,
+    repeat_introducers: u64,
+    blank_repeats: u64,
+    blank_literals: u64,
+    max_repeat: u32,
+    min_repeat: u32,
+    registers: usize,
+    first: Vec<u8>,
+}
+
+/// Draw `case` on `handler` twice and evaluate the statement.
+fn check(case: &Case, handler: &mut SixelImageHandler) -> Outcome {
+    let mut o = Outcome::default();
+    let img = case.image();
+    let (vh, vw, vpx) = case.view();
+    let mut first: Vec<u8> = vec![];
+    let mut second: Vec<u8> = vec![];
+    let res = catch(|| {
+        let a = handler.draw(&mut first, &img, Position::new(0, 0));
+        let b = handler.draw(&mut second, &img, Position::new(3, 5));
+        (a.is_ok(), b.is_ok())
+    });
+    let mut add = |key: &str, what: String| o.findings.push(Finding { key: key.to_string(), what });
+    match res {
+        Err(p) => {
+            add(&p.key(), format!("draw panicked: {} ({}:{})", p.message, p.file, p.line));
+            return o;
+        }
+        Ok((a, b)) => {
+            if !a || !b {
+                add("draw:error-result", "draw returned Err while writing to a Vec".into());
+                return o;
+            }
+        }
+    }
+    if first != second {
+        let at = first.iter().zip(second.iter()).position(|(a, b)| a != b).unwrap_or(first.len().min(second.len()));
+        add(
+            "redraw:bytes-differ",
+            format!("second draw of the same image on the same handler differs at byte {at}: first {} bytes, second {} bytes", first.len(), second.len()),
+        );
+    }
+    let d: Decoded = match decode(&first) {
+        Ok(d) => d,
+        Err(e) => {
+            add("stream:malformed", format!("not one well-formed sixel sequence: {e}; output starts {}", esc(&first[..first.len().min(80)])));
+            o.first = first;
+            return o;
+        }
+    };
+    for p in &d.problems {
+        let kind = p.split(' ').take(2).collect::<Vec<_>>().join("-");
+        add(&format!("stream:{kind}"), p.clone());
+    }
+    let want_h = 6 * (vh / 6);
+    match d.raster {
+        None => add("raster:not-declared", "no raster attributes".into()),
+        Some((_, _, ph, pv)) => {
+            if (ph as usize, pv as usize) != (vw, want_h) {
+                add("raster:declared-size", format!("declared {ph} wide x {pv} high, image is {vw} wide x {vh} high (expected {vw} x {want_h})"));
+            }
+        }
+    }
+    if d.outside_paints > 0 {
+        add("raster:paint-outside", format!("{} pixel paints fall outside the declared {}x{} raster", d.outside_paints, d.width, d.height));
+    }
+    let unpainted = d.unpainted();
+    if unpainted > 0 {
+        let at = d.pix.iter().position(|p| p.is_none()).unwrap();
+        add("raster:unpainted", format!("{unpainted} pixel(s) of the declared raster are never painted, first at row {} col {}", at / d.width.max(1), at % d.width.max(1)));
+    }
+    if !d.undefined_used.is_empty() {
+        add("palette:undefined-register-used", format!("registers {:?} paint without having been defined", d.undefined_used));
+    }
+    if d.registers.len() > 256 || d.registers.keys().any(|r| *r > 255) {
+        add("palette:more-than-256-registers", format!("{} registers defined, highest number {:?}", d.registers.len(), d.registers.keys().last()));
+    }
+    if !d.redefined_after_use.is_empty() {
+        add("palette:register-redefined-after-use", format!("registers {:?}", d.redefined_after_use));
+    }
+
+    // ---- exactness
+    let bg = case.bg.unwrap_or([0, 0, 0]);
+    let exp: Vec<Expect> = vpx.iter().map(|p| expectation(*p, bg)).collect();
+    let classes: BTreeSet<Expect> = exp.iter().copied().collect();
+    if classes.len() <= 256 && vh * vw < 51200 && d.width == vw && d.height == want_h {
+        o.exact_checked = true;
+        let mut blend_seen: BTreeMap<Expect, [u8; 3]> = BTreeMap::new();
+        let mut diff = 0usize;
+        let mut first_diff = None;
+        for r in 0..want_h {
+            for c in 0..vw {
+                let Some(got) = d.get(r, c) else { continue };
+                match exp[r * vw + c] {
+                    Expect::Exact(want) => {
+                        if got != want {
+                            diff += 1;
+                            first_diff.get_or_insert((r, c, want, got));
+                        }
+                    }
+                    e @ Expect::Blend { colour, .. } => {
+                        let bq = q3(bg);
+                        for k in 0..3 {
+                            let lo = colour[k].min(bq[k]).saturating_sub(1);
+                            let hi = colour[k].max(bq[k]) + 1;
+                            if got[k] < lo || got[k] > hi {
+                                add(
+                                    "picture:blend-outside-pixel-background-range",
+                                    format!("row {r} col {c}: decoded {:?} is not between pixel {:?} and background {:?} (0-100 scale)", got, colour, bq),
+                                );
+                                break;
+                            }
+                        }
+                        match blend_seen.get(&e) {
+                            None => {
+                                blend_seen.insert(e, got);
+                            }
+                            Some(prev) if *prev != got => {
+                                add("picture:blend-inconsistent", format!("row {r} col {c}: same source pixel decodes to {:?} here and {:?} elsewhere", got, prev));
+                            }
+                            _ => {}
+                        }
+                    }
+                }
+            }
+        }
+        if let Some((r, c, want, got)) = first_diff {
+            add(
+                "picture:pixel-differs",
+                format!("{diff} pixel(s) differ from the source at 0-100 resolution; first at row {r} col {c}: expected {:?} (source {:?}), decoded {:?}", want, vpx[r * vw + c], got),
+            );
+        }
+    }
+    let colours: BTreeSet<[u8; 3]> = d.pix.iter().flatten().copied().collect();
+    o.colours_in_picture = colours.len();
+    o.picture = hash64(&(d.width, d.height, &d.pix));
+    o.bytes = first.len();
+    o.repeat_introducers = d.repeat_introducers;
+    o.blank_repeats = d.blank_repeats;
+    o.blank_literals = d.blank_literals;
+    o.max_repeat = d.max_repeat;
+    o.min_repeat = d.min_repeat;
+    o.registers = d.registers.len();
+    o.first = first;
+    o
+}
+
+// --------------------------------------------------------------------------------------------
+// spaces
+// --------------------------------------------------------------------------------------------
+
+const PAL2: [Px; 2] = [[200, 30, 30, 255], [30, 30, 200, 255]];
+const PAL3: [Px; 3] = [[0, 0, 0, 255], [255, 255, 255, 255], [101, 102, 103, 255]];
+const PAL4: [Px; 4] = [[0, 0, 0, 255], [255, 255, 255, 255], [101, 102, 103, 255], [255, 0, 0, 255]];
+
+struct Space {
+    name: &'static str,
+    what: String,
+    count: u64,
+    gen: Box<dyn Fn(u64) -> Case + Send + Sync>,
+}
+
+/// all colourings of an h x w image over a palette; index in base |palette|, pixel 0 least
+fn colourings(name: &'static str, h: usize, w: usize, pal: &'static [Px]) -> Space {
+    let n = (pal.len() as u64).pow((h * w) as u32);
+    Space {
+        name,
+        what: format!("all {} colourings of a {h} high x {w} wide image over {} colours", n, pal.len()),
+        count: n,
+        gen: Box::new(move |mut i| {
+            let k = pal.len() as u64;
+            let px = (0..h * w)
+                .map(|_| {
+                    let c = pal[(i % k) as usize];
+                    i /= k;
+                    c
+                })
+                .collect();
+            Case::new(name, h, w, px)
+        }),
+    }
+}
+
+/// single band, every column one of `types` column patterns, widths 1..=maxw
+fn column_images(name: &'static str, bands: usize, maxw: usize, types: usize) -> Space {
+    let per_w: Vec<u64> = (1..=maxw).map(|w| (types as u64).pow(w as u32)).collect();
+    let total: u64 = per_w.iter().sum();
+    Space {
+        name,
+        what: format!(
+            "{} band(s), widths 1..={maxw}, every column one of {types} column types (all-A, all-B{}); second band inverted",
+            bands,
+            if types == 3 { ", top half A / bottom half B" } else { "" }
+        ),
+        count: total,
+        gen: Box::new(move |mut i| {
+            let mut w = 1;
+            for (k, n) in per_w.iter().enumerate() {
+                if i < *n {
+                    w = k + 1;
+                    break;
+                }
+                i -= n;
+            }
+            let h = 6 * bands;
+            let mut px = vec![PAL2[0]; h * w];
+            for c in 0..w {
+                let t = (i % types as u64) as usize;
+                i /= types as u64;
+                for r in 0..h {
+                    let band = r / 6;
+                    let mut colour = match t {
+                        0 => 0,
+                        1 => 1,
+                        _ => (r % 6 >= 3) as usize,
+                    };
+                    if band % 2 == 1 {
+                        colour = 1 - colour;
+                    }
+                    px[r * w + c] = PAL2[colour];
+                }
+            }
+            Case::new(name, h, w, px)
+        }),
+    }
+}
+
+fn unique_colour(i: usize) -> Px {
+    // distinct at 0-100 resolution for i < 100*100
+    let a = (i % 100) as u32;
+    let b = (i / 100 % 100) as u32;
+    let up = |v: u32| ((v * 255 + 50) / 100) as u8;
+    [up(a), up(b), up((a + b) % 101), 255]
+}
+
+fn fixed_cases(tier: Tier) -> Vec<Case> {
+    let mut v = vec![];
+    // heights not a multiple of six, two patterns
+    for h in [6usize, 7, 11, 12, 13] {
+        for w in 1..=5usize {
+            v.push(Case::new("heights", h, w, (0..h * w).map(|i| PAL4[i % 4]).collect()));
+            v.push(Case::new("heights", h, w, (0..h * w).map(unique_colour).collect()));
+        }
+    }
+    // more colours than registers: structural checks only
+    v.push(Case::new("gradient", 24, 24, (0..576).map(|i| [(i / 24 * 10) as u8, (i % 24 * 10) as u8, ((i / 24 + i % 24) * 5) as u8, 255]).collect()));
+    // exactly 256 colours (still exact) and 257 (no longer promised)
+    for n in [255usize, 256, 257, 300] {
+        v.push(Case::new("palette-boundary", 18, 17, (0..18 * 17).map(|i| unique_colour(i % n)).collect()));
+    }
+    // long runs: repeat counts beyond one digit, blank runs
+    for w in [13usize, 99, 100, 255, 256, 300] {
+        v.push(Case::new("wide", 6, w, (0..6 * w).map(|_| PAL2[0]).collect()));
+        v.push(Case::new("wide", 6, w, (0..6 * w).map(|i| PAL2[((i % w) >= w / 2) as usize]).collect()));
+        v.push(Case::new("wide", 12, w, (0..12 * w).map(|i| PAL3[((i % w) * 3 / w + i / w / 6) % 3]).collect()));
+    }
+    // transparency over two configured backgrounds and the default
+    let alphas = [0u8, 128, 255];
+    for bg in [None, Some([255u8, 255, 255]), Some([30u8, 60, 200])] {
+        for code in 0..729u32 {
+            let mut c = code;
+            let px = (0..6)
+                .map(|r| {
+                    let a = alphas[(c % 3) as usize];
+                    c /= 3;
+                    [40 * r as u8 + 10, 250 - 40 * r as u8, 128, a]
+                })
+                .collect();
+            let mut case = Case::new("alpha", 6, 1, px);
+            case.bg = bg;
+            v.push(case);
+        }
+        for pat in 0..9usize {
+            let mut case = Case::new(
+                "alpha",
+                12,
+                3,
+                (0..36).map(|i| [(i * 7) as u8, 200, (255 - i * 5) as u8, alphas[(i + pat / 3 * (i / 3)) % 3 * (pat % 3 + 1) % 3]]).collect(),
+            );
+            case.bg = bg;
+            v.push(case);
+        }
+    }
+    // cropped (strided) views of one 14 x 7 allocation
+    let base: Vec<Px> = (0..14 * 7).map(unique_colour).collect();
+    for r0 in 0..14usize {
+        for r1 in r0 + 6..=14 {
+            for c0 in 0..7usize {
+                for c1 in c0 + 1..=7 {
+                    let mut case = Case::new("crop", 14, 7, base.clone());
+                    case.crop = Some((r0, r1, c0, c1));
+                    v.push(case);
+                }
+            }
+        }
+    }
+    // every value of every channel, alone and next to its successor
+    for ch in 0..3usize {
+        for val in 0..=255u8 {
+            let mut p = [0u8, 0, 0, 255];
+            p[ch] = val;
+            v.push(Case::new("channel-values", 6, 1, vec![p; 6]));
+            if val < 255 {
+                let mut p2 = p;
+                p2[ch] = val + 1;
+                v.push(Case::new("channel-values", 6, 2, (0..12).map(|i| if i % 2 == 0 { p } else { p2 }).collect()));
+            }
+        }
+    }
+    // beyond the sub-sampling threshold (h*w >= 51200): structure only
+    if tier == Tier::Thorough {
+        v.push(Case::new("large", 240, 216, (0..240 * 216).map(|i| PAL2[(i / 7 + i / 216) % 2]).collect()));
+    }
+    v.push(Case::new("large", 216, 240, (0..240 * 216).map(|i| PAL3[(i / 5 + i / 240) % 3]).collect()));
+    v
+}
+
+fn spaces(tier: Tier) -> Vec<Space> {
+    let mut v = vec![
+        colourings("6x1-3colours", 6, 1, &PAL3),
+        colourings("6x2-3colours", 6, 2, &PAL3),
+        colourings("6x3-2colours", 6, 3, &PAL2),
+        column_images("columns-1band-2types", 1, 12, 2),
+        column_images("columns-1band-3types", 1, 8, 3),
+        column_images("columns-2bands-3types", 2, 6, 3),
+    ];
+    if tier == Tier::Thorough {
+        v.push(colourings("6x2-4colours", 6, 2, &PAL4));
+        v.push(colourings("6x4-2colours", 6, 4, &PAL2));
+        v.push(colourings("12x1-3colours", 12, 1, &PAL3));
+        v.push(colourings("12x2-2colours", 12, 2, &PAL2));
+        v.push(column_images("columns-1band-2types-w16", 1, 16, 2));
+    }
+    let fixed = fixed_cases(tier);
+    v.push(Space {
+        name: "fixed",
+        what: "heights {6,7,11,12,13} x widths 1..=5 x 2 patterns; 24x24 gradient (576 colours); 255/256/257/300 colours; wide runs; alpha {0,128,255}^6 x 3 backgrounds; all crops with >= 6 rows of a 14x7 image; every value of each channel; images beyond the sub-sampling threshold".into(),
+        count: fixed.len() as u64,
+        gen: Box::new(move |i| fixed[i as usize].clone()),
+    });
+    v
+}
+
+/// families replayed on ONE handler: every image once, then every image again
+fn shared_family(name: &str) -> Vec<Case> {
+    match name {
+        "columns" => {
+            let s = column_images("shared", 1, 7, 3);
+            (0..s.count).map(|i| (s.gen)(i)).collect()
+        }
+        _ => {
+            // same pixel sequence under different shapes, and crops with equal content
+            let px: Vec<Px> = (0..72).map(|i| PAL3[(i * i + i / 5) % 3]).collect();
+            let mut v = vec![];
+            for (h, w) in [(6, 12), (12, 6), (18, 4), (24, 3), (36, 2), (72, 1), (8, 9), (9, 8)] {
+                v.push(Case::new("shared", h, w, px.clone()));
+            }
+            for c0 in 0..6 {
+                let mut c = Case::new("shared", 6, 12, px.clone());
+                c.crop = Some((0, 6, c0, c0 + 6));
+                v.push(c);
+            }
+            v
+        }
+    }
+}
+
+struct Tally {
+    evaluations: AtomicU64,
+    exact: AtomicU64,
+    structural_only: AtomicU64,
+    with_repeat: AtomicU64,
+    with_blank_repeat: AtomicU64,
+    with_blank_literal: AtomicU64,
+    repeat_3_or_less: AtomicU64,
+    max_repeat: AtomicU64,
+    max_registers: AtomicU64,
+    bytes: AtomicU64,
+    pictures: Vec<Mutex<HashSet<u64>>>,
+}
+
+impl Tally {
+    fn new() -> Self {
+        Tally {
+            evaluations: AtomicU64::new(0),
+            exact: AtomicU64::new(0),
+            structural_only: AtomicU64::new(0),
+            with_repeat: AtomicU64::new(0),
+            with_blank_repeat: AtomicU64::new(0),
+            with_blank_literal: AtomicU64::new(0),
+            repeat_3_or_less: AtomicU64::new(0),
+            max_repeat: AtomicU64::new(0),
+            max_registers: AtomicU64::new(0),
+            bytes: AtomicU64::new(0),
+            pictures: (0..256).map(|_| Mutex::new(HashSet::new())).collect(),
+        }
+    }
+
+    fn record(&self, o: &Outcome) {
+        self.evaluations.fetch_add(1, Ordering::Relaxed);
+        if o.exact_checked {
+            self.exact.fetch_add(1, Ordering::Relaxed);
+        } else {
+            self.structural_only.fetch_add(1, Ordering::Relaxed);
+        }
+        if o.repeat_introducers > 0 {
+            self.with_repeat.fetch_add(1, Ordering::Relaxed);
+            if o.min_repeat <= 3 {
+                self.repeat_3_or_less.fetch_add(1, Ordering::Relaxed);
+            }
+        }
+        if o.blank_repeats > 0 {
+            self.with_blank_repeat.fetch_add(1, Ordering::Relaxed);
+        }
+        if o.blank_literals > 0 {
+            self.with_blank_literal.fetch_add(1, Ordering::Relaxed);
+        }
+        self.max_repeat.fetch_max(o.max_repeat as u64, Ordering::Relaxed);
+        self.max_registers.fetch_max(o.registers as u64, Ordering::Relaxed);
+        self.bytes.fetch_add(o.bytes as u64, Ordering::Relaxed);
+        if o.colours_in_picture >= 2 {
+            self.pictures[(o.picture >> 56) as usize].lock().unwrap().insert(o.picture);
+        }
+    }
+
+    fn distinct(&self) -> u64 {
+        self.pictures.iter().map(|s| s.lock().unwrap().len() as u64).sum()
+    }
+}
+
+fn handler_for(case: &Case) -> SixelImageHandler {
+    SixelImageHandler::new(case.bg.map(|b| RGBA::new(b[0], b[1], b[2], 255)))
+}
+
+pub fn run(ctx: &Ctx) -> Result<Report, String> {
+    let viol = Violations::new();
+    let samples = Samples::new(ctx.seed);
+    let tally = Tally::new();
+    let mut capped = false;
+    let mut sizes = vec![];
+    // keys already reported with a single-image witness (not repeated for the shared handlers)
+    let isolated_keys: Mutex<BTreeSet<String>> = Mutex::new(BTreeSet::new());
+    for sp in spaces(ctx.tier) {
+        if ctx.over_cap() {
+            capped = true;
+            sizes.push(json!({"space": sp.name, "what": sp.what, "images": sp.count, "done": false}));
+            continue;
+        }
+        let before = tally.distinct();
+        (0..sp.count).into_par_iter().for_each(|i| {
+            let case = (sp.gen)(i);
+            let mut h = handler_for(&case);
+            let o = check(&case, &mut h);
+            tally.record(&o);
+            for f in &o.findings {
+                isolated_keys.lock().unwrap().insert(f.key.clone());
+                viol.add(f.key.clone(), format!("{} [{} image #{i}, {} high x {} wide]", f.what, sp.name, case.view().0, case.view().1), case.json());
+            }
+            let pick = (i.wrapping_mul(0x9e37_79b9).wrapping_add(ctx.seed)) % sp.count.max(1);
+            if pick < 1 && sp.count > 2 || (sp.name == "fixed" && i % 997 == ctx.seed % 997) {
+                samples.force(json!({
+                    "space": sp.name, "index": i, "h": case.view().0, "w": case.view().1,
+                    "output_bytes": o.bytes, "output_head": esc(&o.first[..o.first.len().min(100)]),
+                    "registers": o.registers, "colours_in_decoded_picture": o.colours_in_picture,
+                    "compared_pixel_for_pixel": o.exact_checked,
+                }));
+            }
+        });
+        sizes.push(json!({"space": sp.name, "what": sp.what, "images": sp.count, "done": true, "new_distinct_pictures": tally.distinct() - before}));
+    }
+
+    // ---- many images on ONE handler, then all of them again: the cache must not mix them up
+    let mut shared_images = 0u64;
+    for fam in ["columns", "shapes"] {
+        let cases = shared_family(fam);
+        let mut handler = SixelImageHandler::new(None);
+        let mut firsts: Vec<Vec<u8>> = vec![];
+        for (i, case) in cases.iter().enumerate() {
+            let o = check(case, &mut handler);
+            tally.record(&o);
+            shared_images += 1;
+            for f in &o.findings {
+                if isolated_keys.lock().unwrap().contains(&f.key) {
+                    continue;
+                }
+                viol.add(format!("shared:{}", f.key), format!("{} [family {fam}, image #{i} on a handler that drew #0..#{i} before]", f.what), json!({"sub": "shared", "family": fam, "index": i}));
+            }
+            firsts.push(o.first);
+        }
+        for (i, case) in cases.iter().enumerate() {
+            let mut again = vec![];
+            let img = case.image();
+            let _ = catch(|| handler.draw(&mut again, &img, Position::new(1, 1)));
+            if again != firsts[i] {
+                viol.add(
+                    "shared:redraw:bytes-differ",
+                    format!("family {fam}: image #{i} drawn again after {} other images emits different bytes", cases.len()),
+                    json!({"sub": "shared", "family": fam, "index": i, "redraw_after_all": true}),
+                );
+            }
+        }
+    }
+
+    let mut r = Report::new("exploration");
+    r.set("evaluations", tally.evaluations.load(Ordering::Relaxed))
+        .set("distinct_nontrivial", tally.distinct())
+        .set(
+            "rule",
+            "one evaluation = one image drawn twice on a SixelImageHandler, first output decoded by the reference interpreter; \
+             distinct_nontrivial = number of distinct decoded pictures (raster size + colour of every pixel) that contain at least two colours",
+        )
+        .set("samples", samples.into_vec())
+        .set("exhaustive", !capped)
+        .set("capped", capped)
+        .set("spaces", sizes)
+        .set("compared_pixel_for_pixel", tally.exact.load(Ordering::Relaxed))
+        .set("structure_checked_only", tally.structural_only.load(Ordering::Relaxed))
+        .set("outputs_using_repeat_introducer", tally.with_repeat.load(Ordering::Relaxed))
+        .set("outputs_with_repeat_count_3_or_less", tally.repeat_3_or_less.load(Ordering::Relaxed))
+        .set("outputs_using_blank_run_repeat", tally.with_blank_repeat.load(Ordering::Relaxed))
+        .set("outputs_using_literal_blank_sixels", tally.with_blank_literal.load(Ordering::Relaxed))
+        .set("largest_repeat_count", tally.max_repeat.load(Ordering::Relaxed))
+        .set("largest_register_count", tally.max_registers.load(Ordering::Relaxed))
+        .set("output_bytes_decoded", tally.bytes.load(Ordering::Relaxed))
+        .set("images_on_shared_handlers", shared_images)
+        .set("raw_violations", viol.raw_count());
+    r.assume("sixel semantics per DEC: bit 0 of a data byte is the top pixel, '$' returns to column 0, '-' moves down six pixels, '!n' repeats the next data byte, '#n;2;r;g;b' defines a register in RGB 0-100; clear bits leave pixels untouched");
+    r.assume("0-100 resolution of a channel value c is round(100 c / 255); fully transparent pixels show the background (default black)");
+    r.assume("for partially transparent pixels the statement does not say how compositing is computed, so only 'between pixel and background (+-1)' and 'same source pixel -> same colour' are required");
+    r.assume("images with h*w >= 51200 (palette built from a pseudo-random sub-sample) and more than 256 colours are checked for structure only");
+    r.violations = viol.into_vec();
+    Ok(r)
+}
+
+pub fn replay(w: &Value) -> Result<(bool, String), String> {
+    let mut text = String::new();
+    let o = if w["sub"] == json!("shared") {
+        let fam = w["family"].as_str().ok_or("family")?;
+        let idx = w["index"].as_u64().ok_or("index")? as usize;
+        let cases = shared_family(fam);
+        let mut handler = SixelImageHandler::new(None);
+        let mut outs = vec![];
+        for case in &cases[..=idx.min(cases.len() - 1)] {
+            outs.push(check(case, &mut handler));
+        }
+        let mut o = outs.pop().ok_or("empty family")?;
+        if w["redraw_after_all"] == json!(true) {
+            for case in &cases[idx + 1..] {
+                check(case, &mut handler);
+            }
+            let mut again = vec![];
+            let img = cases[idx].image();
+            let _ = catch(|| handler.draw(&mut again, &img, Position::new(1, 1)));
+            if again != o.first {
+                o.findings.push(Finding { key: "redraw:bytes-differ".into(), what: format!("image #{idx} drawn again after the whole family: {} bytes vs {} bytes", again.len(), o.first.len()) });
+            }
+        }
+        text.push_str(&format!("family {fam}, image #{idx} after drawing #0..#{idx} on one handler\n"));
+        o
+    } else {
+        let case = Case::from_json(w)?;
+        let (vh, vw, vpx) = case.view();
+        text.push_str(&format!("image {vh} high x {vw} wide, background {:?}\n", case.bg));
+        if vpx.len() <= 64 {
+            let bg = case.bg.unwrap_or([0, 0, 0]);
+            text.push_str("expected picture (0-100 scale), row by row:\n");
+            for r in 0..6 * (vh / 6) {
+                let row: Vec<String> = (0..vw).map(|c| format!("{:?}", expectation(vpx[r * vw + c], bg))).collect();
+                text.push_str(&format!("  {}\n", row.join(" ")));
+            }
+        }
+        let mut h = handler_for(&case);
+        check(&case, &mut h)
+    };
+    text.push_str(&format!("output ({} bytes): {}\n", o.first.len(), esc(&o.first[..o.first.len().min(400)])));
+    if let Ok(d) = decode(&o.first) {
+        text.push_str(&format!("decoded: raster {:?}, {} registers, {} unpainted, {} paints outside\n", d.raster, d.registers.len(), d.unpainted(), d.outside_paints));
+        if d.pix.len() <= 64 {
+            for r in 0..d.height {
+                let row: Vec<String> = (0..d.width).map(|c| format!("{:?}", d.get(r, c))).collect();
+                text.push_str(&format!("  {}\n", row.join(" ")));
+            }
+        }
+    }
+    for f in &o.findings {
+        text.push_str(&format!("VIOLATION [{}]: {}\n", f.key, f.what));
+    }
+    if o.findings.is_empty() {
+        text.push_str("decoded picture satisfies the statement on this witness\n");
+    }
+    Ok((!o.findings.is_empty(), text))
 }
